@@ -224,7 +224,7 @@ func runChanDisc(c *core.Ctx) {
 					c.Unknown(props, fname(c, fn), k, pos, "could not locate the Done case's block")
 					continue
 				}
-				if an.Reachable(cb, sel.Block(), nil, nil) && cb != sel.Block() {
+				if cb == sel.Block() || an.Reachable(cb, sel.Block(), nil, nil) {
 					c.Bad(props, fname(c, fn), k, pos, "the <-ctx.Done() case does not leave the loop: after cancellation the select is entered again")
 					continue
 				}
@@ -293,9 +293,7 @@ func shortChan(v ssa.Value) string {
 			return "local chan " + strings.TrimPrefix(types.TypeString(mc.Type(), nil), "chan ")
 		}
 	}
-	if len(p) > 60 {
-		p = p[:57] + "…"
-	}
+	p = clip(p, 57)
 	return p
 }
 
